@@ -6,6 +6,7 @@ import (
 	"bytes"
 	"encoding/json"
 	"fmt"
+	"net"
 	"strings"
 	"sync"
 	"testing"
@@ -38,6 +39,11 @@ type req struct {
 type connCase struct {
 	Reqs   []req `json:"reqs"`
 	Chunks []int `json:"chunks"`
+	// AbortAfter > 0: this client writes its first AbortAfter requests and closes the connection (RST when AbortRST) without
+	// reading a single reply, while the requests are still in flight at the backends. Nothing is owed to it; what the other
+	// connections receive must not change.
+	AbortAfter int  `json:"abort_after,omitempty"`
+	AbortRST   bool `json:"abort_rst,omitempty"`
 }
 
 type pipeCase struct {
@@ -50,6 +56,12 @@ type pipeCase struct {
 	SlowWriterUs int        `json:"slow_writer_us,omitempty"`
 	Conns        []connCase `json:"conns"`
 	Delays       [][]int    `json:"delays"` // per node: reply delays in microseconds, cycled
+	// the clients start reading replies only after this long (replies back up in the proxy and in the sockets)
+	ReadLagMs int `json:"read_lag_ms,omitempty"`
+	// deadline for one reply (0: replyTimeout). Deep pipelines are slow by construction: one backend connection serves
+	// tens of thousands of commands one by one, and a session only flushes its replies when nothing else is in flight or
+	// its 8 KiB buffer is full, so a single reply can legitimately take long.
+	ReplyTimeoutS int `json:"reply_timeout_s,omitempty"`
 }
 
 type pipeInfo struct {
@@ -145,6 +157,10 @@ func checkPipe(c pipeCase) (inf pipeInfo, v *verdict) {
 			exps[ci] = append(exps[ci], exp{rep, local})
 		}
 	}
+	replyTimeout := replyTimeout
+	if c.ReplyTimeoutS > 0 {
+		replyTimeout = time.Duration(c.ReplyTimeoutS) * time.Second
+	}
 	var wg sync.WaitGroup
 	res := make([]*verdict, len(c.Conns))
 	for ci := range c.Conns {
@@ -159,11 +175,31 @@ func checkPipe(c pipeCase) (inf pipeInfo, v *verdict) {
 			}
 			defer cl.Close()
 			var all []byte
+			if cc.AbortAfter > 0 {
+				for i, r := range cc.Reqs {
+					if i < cc.AbortAfter {
+						all = append(all, r.bytes()...)
+					}
+				}
+				cl.C.SetWriteDeadline(time.Now().Add(5 * time.Second))
+				cl.Send(all, nil)
+				time.Sleep(200 * time.Microsecond)
+				if !cc.AbortRST {
+					if tc, ok := cl.C.(*net.TCPConn); ok {
+						tc.SetLinger(-1)
+					}
+					cl.C.Close()
+				}
+				return // the deferred Close resets the connection (linger 0)
+			}
 			for _, r := range cc.Reqs {
 				all = append(all, r.bytes()...)
 			}
 			sendErr := make(chan error, 1)
 			go func() { sendErr <- cl.Send(all, cc.Chunks) }()
+			if c.ReadLagMs > 0 {
+				time.Sleep(time.Duration(c.ReadLagMs) * time.Millisecond)
+			}
 			for i, r := range cc.Reqs {
 				got, err := cl.Recv(replyTimeout)
 				if err != nil {
@@ -293,6 +329,9 @@ func genPipe(t *rapid.T) pipeCase {
 			all = append(all, r.bytes()...)
 		}
 		cc.Chunks = gen.Chunks(t, "frag", all)
+		if nc >= 2 && ci > 0 && rapid.IntRange(0, 4).Draw(t, "abort") == 0 {
+			cc.AbortAfter, cc.AbortRST = rapid.IntRange(1, n).Draw(t, "abortafter"), rapid.Bool().Draw(t, "abortrst")
+		}
 		c.Conns = append(c.Conns, cc)
 	}
 	for i := 0; i < c.Layout.Masters; i++ {
@@ -356,11 +395,146 @@ func TestPipeline(t *testing.T) {
 		if len(c.Conns) >= 2 {
 			vh.Rec().Class("pipeline", ">=2_connections")
 		}
+		for _, cc := range c.Conns {
+			if cc.AbortAfter > 0 {
+				vh.Rec().Class("pipeline", "a_connection_closes_with_requests_in_flight")
+				break
+			}
+		}
 		vh.Rec().Sample("pipeline", nt, func() interface{} { return describe(c) })
 	})
 }
 
+// ---- deep pipelines: more requests in flight than the proxy's queues hold
+
+// deepCase is expanded deterministically into a pipeCase (so that the replay file stays small).
+type deepCase struct {
+	Masters      int   `json:"masters"`
+	Conns        int   `json:"conns"`
+	N            int   `json:"n"`           // requests per connection, written in one go
+	Keys         int   `json:"keys"`        // keys per connection
+	ValSize      int   `json:"val_size"`    // size of the stored values (GET replies)
+	MultiEvery   int   `json:"multi_every"` // every k-th request is an MGET over MultiWidth keys (0: none)
+	MultiWidth   int   `json:"multi_width"` // a connection has at most 33 requests in flight, but every key of an MGET is a backend request of its own
+	SlowWriterUs int   `json:"slow_writer_us"`
+	DelaysUs     []int `json:"delays_us"` // per node constant reply delay
+	ReadLagMs    int   `json:"read_lag_ms"`
+	OneNode      bool  `json:"one_node"` // all keys of a connection share a hash tag (one backend connection takes everything)
+}
+
+func (d deepCase) expand() pipeCase {
+	c := pipeCase{Layout: sim.Layout{Masters: d.Masters, Kind: "even", Seed: 1}, SlowWriterUs: d.SlowWriterUs, ReadLagMs: d.ReadLagMs, ReplyTimeoutS: 150}
+	for _, x := range d.DelaysUs {
+		c.Delays = append(c.Delays, []int{x})
+	}
+	for ci := 0; ci < d.Conns; ci++ {
+		key := func(j int) []byte {
+			if d.OneNode {
+				return []byte(fmt.Sprintf("{c%d}k%d", ci, j%d.Keys))
+			}
+			return []byte(fmt.Sprintf("c%d:k%d", ci, j%d.Keys))
+		}
+		val := func(gen int) []byte {
+			b := make([]byte, d.ValSize)
+			for i := range b {
+				b[i] = byte('a' + (i+gen+ci)%26)
+			}
+			return b
+		}
+		var cc connCase
+		for j := 0; j < d.Keys; j++ {
+			cc.Reqs = append(cc.Reqs, req{Args: [][]byte{[]byte("SET"), key(j), val(j)}})
+		}
+		for i := 0; i < d.N; i++ {
+			switch {
+			case d.MultiEvery > 0 && i%d.MultiEvery == d.MultiEvery-1:
+				args := [][]byte{[]byte("MGET")}
+				for k := 0; k < d.MultiWidth; k++ {
+					args = append(args, key(i+k))
+				}
+				cc.Reqs = append(cc.Reqs, req{Args: args})
+			case i%53 == 52:
+				cc.Reqs = append(cc.Reqs, req{Args: [][]byte{[]byte("SET"), key(i), val(i)}})
+			case i%7 == 6:
+				cc.Reqs = append(cc.Reqs, req{Args: [][]byte{[]byte("INCR"), append(key(0), []byte(":ctr")...)}})
+			default:
+				cc.Reqs = append(cc.Reqs, req{Args: [][]byte{[]byte("GET"), key(i)}})
+			}
+		}
+		c.Conns = append(c.Conns, cc)
+	}
+	return c
+}
+
+func TestDeepPipeline(t *testing.T) {
+	rapid.Check(t, func(t *rapid.T) {
+		d := deepCase{
+			Masters:      rapid.IntRange(1, 3).Draw(t, "masters"),
+			Conns:        rapid.SampledFrom([]int{1, 3, 8, 40}).Draw(t, "conns"),
+			N:            rapid.SampledFrom([]int{1100, 2100, 3000, 5000}).Draw(t, "n"),
+			MultiWidth:   rapid.SampledFrom([]int{3, 40, 120}).Draw(t, "multiwidth"),
+			Keys:         rapid.IntRange(1, 12).Draw(t, "keys"),
+			ValSize:      rapid.SampledFrom([]int{1, 10, 600, 5000}).Draw(t, "valsize"),
+			MultiEvery:   rapid.SampledFrom([]int{0, 0, 5, 31}).Draw(t, "multi"),
+			SlowWriterUs: rapid.SampledFrom([]int{0, 0, 20, 100}).Draw(t, "slowwriter"),
+			ReadLagMs:    rapid.SampledFrom([]int{0, 0, 50, 400}).Draw(t, "readlag"),
+			OneNode:      rapid.Bool().Draw(t, "onenode"),
+		}
+		for i := 0; i < d.Masters; i++ {
+			d.DelaysUs = append(d.DelaysUs, rapid.SampledFrom([]int{0, 0, 30, 200}).Draw(t, "delay"))
+		}
+		if d.N*d.Conns > 20000 {
+			d.N = 20000 / d.Conns
+		}
+		if d.MultiEvery > 0 && d.MultiWidth > 3 && d.N*d.Conns*d.MultiWidth/d.MultiEvery > 400000 {
+			d.MultiEvery = 31
+		}
+		if d.ValSize*d.MultiWidth > 100000 {
+			d.ValSize = 600
+		}
+		// keep one case below some seconds: backend commands are served one by one per backend connection
+		work := d.N * d.Conns
+		if d.MultiEvery > 0 {
+			work += d.N * d.Conns / d.MultiEvery * d.MultiWidth
+		}
+		if d.SlowWriterUs*work > 3000000 {
+			d.SlowWriterUs = 0
+		}
+		for i := range d.DelaysUs {
+			if d.DelaysUs[i]*work > 3000000 {
+				d.DelaysUs[i] = 0
+			}
+		}
+		vh.CurrentCase(prop, "deep", d)
+		_, v := checkPipe(d.expand())
+		vh.ClearCurrentCase()
+		if v != nil {
+			vh.Fail(t, vh.Failure{Property: prop, Part: "deep", Signature: v.sig, Message: v.msg, Case: d})
+		}
+		vh.Rec().Case("deep", true, vh.JSON(d))
+		if d.ReadLagMs > 0 && d.ValSize >= 600 {
+			vh.Rec().Class("deep", "replies_back_up_behind_a_client_that_does_not_read")
+		}
+		if d.OneNode {
+			vh.Rec().Class("deep", "one_backend_connection_takes_everything")
+		}
+		if inFlight := d.Conns * 33; inFlight > 1024 || (d.MultiEvery > 0 && inFlight/d.MultiEvery*d.MultiWidth > 1024) {
+			vh.Rec().Class("deep", "more_backend_requests_in_flight_than_a_backend_queue_holds(1024)")
+		}
+		vh.Rec().Sample("deep", true, func() interface{} { return d })
+	})
+}
+
 func init() {
+	vh.RegisterReplay("deep", func(t *testing.T, raw json.RawMessage) {
+		var d deepCase
+		if err := json.Unmarshal(raw, &d); err != nil {
+			t.Fatal(err)
+		}
+		if _, v := checkPipe(d.expand()); v != nil {
+			vh.Fail(t, vh.Failure{Property: prop, Part: "deep", Signature: v.sig, Message: v.msg, Case: d})
+		}
+	})
 	vh.RegisterReplay("pipeline", func(t *testing.T, raw json.RawMessage) {
 		var c pipeCase
 		if err := json.Unmarshal(raw, &c); err != nil {
